@@ -47,6 +47,13 @@ def impl(fn, *a, **kw):
         return {'err': exc_name(e)}
 
 
+def parse_model(text):
+    """`fsic.parse_model` without its syntax check: the check `exec`s every generated line (a statement such as
+    `Y = np.sqrt(-2)` or `Y = 1 / 0` then fails at *parse* time — the C13 finding), which is not what C03/C15 are about;
+    the symbol merge that follows is the same code either way."""
+    return P.parse_model(text, check_syntax=False)
+
+
 def is_verbatim_statement(st):
     return st.startswith('`') and st.endswith('`')
 
